@@ -161,32 +161,38 @@ def assembleDisc (blocks : List BlockDef) (look : String → Option RawBlock) : 
 /-- `dict.update` of cell dictionaries -/
 def updateRow (old new : Row) : Row := new.foldl (fun d (k, c) => dset d k c) old
 
-def assembleTro (blocks : List BlockDef) (look : String → Option RawBlock) : Option (List (String × Val)) := do
-  let mut D : List (String × Val) := []
-  for b in blocks do
-    match look b.marker with
-    | Option.none => pure ()
-    | some r =>
-      let rows := rowsOf b 81 r
-      match b.kind with
-      | .dflt => D := dset D b.marker (.dict (columns b.fields rows))
-      | .matrix _ => Option.none
-      | .custom q =>
-        let e := entryName q
-        if e = "trop_description" then
-          for row in rows do
-            D := dset D (asString (cellStr (lookup row "keyword"))) (.cell (lookup row "value"))
-        else if e = "trop_solution" then
-          for row in rows do
-            let sta := asString (cellStr (lookup row "site_name"))
-            let rest := row.filter (·.1 ≠ "site_name")
-            let old : Row :=
-              match dget? D sta with
-              | some (.dict kvs) => kvs.filterMap fun (k, v) => match v with | .cell c => some (k, c) | _ => Option.none
-              | _ => []
-            D := dset D sta (rowVal (updateRow old rest))
-        else Option.none
-  pure D
+/-- `self.data.update({keyword: value})` of one TROP/DESCRIPTION row -/
+def troDescStep (D : List (String × Val)) (row : Row) : List (String × Val) :=
+  dset D (asString (cellStr (lookup row "keyword"))) (.cell (lookup row "value"))
+
+/-- the cell dictionary stored under a key (empty when the key is absent or holds something else) -/
+def cellsOf (D : List (String × Val)) (k : String) : Row :=
+  match dget? D k with
+  | some (.dict kvs) => kvs.filterMap fun (k, v) => match v with | .cell c => some (k, c) | _ => Option.none
+  | _ => []
+
+/-- `self.data.setdefault(sta, dict()); self.data[sta].update(row without site_name)` of one TROP/SOLUTION row -/
+def troSolStep (D : List (String × Val)) (row : Row) : List (String × Val) :=
+  let sta := asString (cellStr (lookup row "site_name"))
+  dset D sta (rowVal (updateRow (cellsOf D sta) (row.filter (·.1 ≠ "site_name"))))
+
+/-- one block of `SinexTropParser` applied to `self.data` -/
+def troStep (look : String → Option RawBlock) (D : List (String × Val)) (b : BlockDef) : Option (List (String × Val)) :=
+  match look b.marker with
+  | Option.none => some D
+  | some r =>
+    let rows := rowsOf b 81 r
+    match b.kind with
+    | .dflt => some (dset D b.marker (.dict (columns b.fields rows)))
+    | .matrix _ => Option.none
+    | .custom q =>
+      let e := entryName q
+      if e = "trop_description" then some (rows.foldl troDescStep D)
+      else if e = "trop_solution" then some (rows.foldl troSolStep D)
+      else Option.none
+
+def assembleTro (blocks : List BlockDef) (look : String → Option RawBlock) : Option (List (String × Val)) :=
+  blocks.foldlM (troStep look) []
 
 /-! ### sinex_tms -/
 
